@@ -30,6 +30,19 @@ def guess(S, n):
     return int(np.round(np.power(S, 1 / n)))
 
 
+def run_split(opt, total, rng, memory):
+    """the search of `total` steps, in about half of the cases continued over 2-3 search() calls (the first |S| iteration steps are
+    the optimizer's, however the calls are cut); returns the cut"""
+    chunks = [total]
+    if total >= 2 and rng.random() < 0.5:
+        cuts = sorted(set(rng.randrange(1, total) for _ in range(rng.choice([1, 2]))))
+        chunks = [b - a for a, b in zip([0] + cuts, cuts + [total])]
+    with contextlib.redirect_stdout(io.StringIO()):
+        for n in chunks:
+            opt.search(lambda para: 0.0, n_iter=n, verbosity=False, memory=memory)
+    return chunks
+
+
 def pre_build(ctx):
     import gen_units
     gen_units.pre_build(ctx, "translate_grid")
@@ -49,7 +62,7 @@ def run(ctx):
                   "distinct by (shape, step, pointer)")
     us = ctx.unit("S:GridSearchOptimizer.iterate", "S",
                   "real GridSearchOptimizer runs (both directions, every step dividing |S|, random initialize) for n_inits + |S| "
-                  "steps; the iteration positions are compared with the model's diag_run / orth_run; "
+                  "steps, half of them continued over 2-3 search() calls; the iteration positions are compared with the model's diag_run / orth_run; "
                   "non-trivial = |S| > 1; distinct by (shape, step, direction)")
     ctx.monitor_rule = "len(set(pos_l[n_inits : n_inits + |S|])) == |S| and every point of the space is among them"
     rng = ctx.sub_rng("s")
@@ -86,11 +99,10 @@ def run(ctx):
                 init = rng.choice([{"random": 1}, {"grid": 2, "random": 1}, {"vertices": 2}, {"random": 3}])
                 opt = gfo.GridSearchOptimizer(space, initialize=init, random_state=rng.randrange(1000), step_size=s, direction=direction)
                 n_inits = opt.init.n_inits
-                with contextlib.redirect_stdout(io.StringIO()):
-                    opt.search(lambda para: 0.0, n_iter=n_inits + S, verbosity=False, memory=rng.random() < 0.5)
+                chunks = run_split(opt, n_inits + S, rng, rng.random() < 0.5)
                 it = [[int(x) for x in p] for p in opt.pos_l[n_inits:n_inits + S]]
                 slits.append("(%s, %s, %s, %s, %s)" % (clist(dims), cz(s), cz(guess(S, len(dims))), cbool(direction == "diagonal"), clist(it, clist)))
-                case = dict(dims=dims, step=s, direction=direction, initialize=init, first=it[:6])
+                case = dict(dims=dims, step=s, direction=direction, initialize=init, calls=chunks, first=it[:6])
                 scases.append(case)
                 us.count((tuple(dims), s, direction), nontrivial=S > 1)
                 us.bump(direction)
@@ -98,7 +110,7 @@ def run(ctx):
                 ctx.monitor_nontrivial.add((tuple(dims), s, direction))
                 if len(set(map(tuple, it))) != S:
                     ctx.violation(dict(kind="grid-not-covering", direction=direction),
-                                  dict(dims=dims, step_size=s, direction=direction, initialize=init, positions=it),
+                                  dict(dims=dims, step_size=s, direction=direction, initialize=init, calls=chunks, positions=it),
                                   "%s grid on shape %r with step_size %d visits only %d distinct points in its first %d iteration steps"
                                   % (direction, dims, s, len(set(map(tuple, it))), S))
     # larger spaces with step_size > 1: the trials around every pass boundary (t = j * |S|/step +- 1) of the orthogonal decoder and
@@ -122,8 +134,7 @@ def run(ctx):
                 for direction in ("orthogonal", "diagonal"):
                     opt = gfo.GridSearchOptimizer(space, initialize={"random": 1}, random_state=rng.randrange(1000), step_size=s, direction=direction)
                     n_inits = opt.init.n_inits
-                    with contextlib.redirect_stdout(io.StringIO()):
-                        opt.search(lambda para: 0.0, n_iter=n_inits + S, verbosity=False, memory=False)
+                    chunks = run_split(opt, n_inits + S, rng, False)
                     it = [tuple(int(x) for x in p) for p in opt.pos_l[n_inits:n_inits + S]]
                     ctx.monitor_runs += 1
                     ctx.monitor_nontrivial.add((tuple(dims), s, direction))
@@ -131,7 +142,7 @@ def run(ctx):
                         seen = set()
                         dup = next(p_ for p_ in it if p_ in seen or seen.add(p_))
                         ctx.violation(dict(kind="grid-not-covering", direction=direction),
-                                      dict(dims=dims, step_size=s, direction=direction, initialize={"random": 1}, first_repeated=list(dup), distinct=len(set(it))),
+                                      dict(dims=dims, step_size=s, direction=direction, initialize={"random": 1}, calls=chunks, first_repeated=list(dup), distinct=len(set(it))),
                                       "%s grid on shape %r with step_size %d visits only %d distinct points in its first %d iteration steps"
                                       % (direction, dims, s, len(set(it)), S))
     uk.exhaustive = True
